@@ -130,6 +130,10 @@ register(NativeGroup('plumb.degenerate', dict(quick=[('degenerate', 2), ('degene
                      _BN % (3, 4) + '; every pattern of empty / non-empty trains', _WR))
 register(NativeGroup('plumb.many', dict(quick=[('forms_many', n) for n in (8, 9, 11, 13, 16, 17)], thorough=[('forms_many', n) for n in range(8, 34)]),
                      'N = 8, 9, 11, 13, 16, 17 trains (quick) / every N from 8 to 33 (thorough): whole list and one rotation, list and indices forms, default and MRTS keywords; unbounded in the train contents', _WR))
+register(NativeGroup('plumb.near', dict(quick=[('near', 2), ('near', 3)], thorough=[('near', 2), ('near', 3)]),
+                     _BN % (3, 3) + '; distinct trains whose spike times differ by a few 1e-9 (np.isclose / np.allclose would call them equal)', _WR))
+register(NativeGroup('plumb.same_window', dict(quick=[('same_window', 2), ('same_window', 3)], thorough=[('same_window', 2), ('same_window', 3), ('same_window', 4)]),
+                     _BN % (3, 4) + '; for one call every entry point of the SPIKE-Sync / order / directionality family hands the same (max_tau, MRTS) to the kernels', _WR))
 register(NativeGroup('plumb.repeated', dict(quick=[('repeated', 2), ('repeated', 3)], thorough=[('repeated', 2), ('repeated', 3), ('repeated', 4)]),
                      _BN % (3, 4) + '; lists in which a spike train occurs more than once (identical spike times), also next to trains without spikes', _WR))
 register(NativeGroup('plumb.reconcile', dict(quick=[('reconcile', 2), ('reconcile', 3)], thorough=[('reconcile', 2), ('reconcile', 3), ('reconcile', 4)]), _BN % (3, 4), _WR))
